@@ -22,7 +22,7 @@ LEVEL = {
  'C14': ('E1+E2', 'hazard_pointer_scan / binary search / threshold arithmetic for arbitrary ordering patterns (E1, N<=3,K<=2) and for arbitrary 64-bit slot values on integer addresses (E2); scan racing with a registration is a stretch job; the publish/validate side inside mpmc_fifo is not covered'),
  'C15': ('E2', 'mpsc / spsc / relaxed mpsc: every interleaving (and x86-TSO reordering for small configurations) of the stated producer/consumer programs, incl. liveness of the consumer (nothing lost)'),
  'C16': ('E2', 'ring buffer trypush/trypop: every interleaving of the stated programs from symbolic start indices incl. wrap-around through 2^64'),
- 'C17': ('E2', 'work queue: every interleaving of a draining worker with 1-2 concurrent pushers, sequential hand-over, and (thorough) the general program in which any of 2-3 pushing threads may become the worker'),
+ 'C17': ('E1+E2', 'rely/guarantee step over the counters (one get_work / push from any state satisfying in_count == out_count + linked + pending, any number of concurrent pushers; covers histories of any length for the counter protocol) + work queue: every interleaving of a draining worker with 1-2 concurrent pushers, sequential hand-over, and (thorough) the general program in which any of 2-3 pushing threads may become the worker'),
  'C18': ('E1+E2', 'spinlock word transitions for all 2^64 words (wrap-around) + contention scenario'),
  'C19': ('E3+E1', 'the x86-64 context-switch assembly interpreted symbolically over z3 bit-vectors for all register/memory contents (round trip, invariant induction, fresh context) + fiber_context_init / create / destroy for all stack sizes in range under CBMC'),
  'C20': ('E2', 'double-word-CAS structures: every interleaving of ABA-provoking programs (pop / reuse / push) on lifo, dist_fifo, mpmc_stack, multi-signal'),
@@ -59,7 +59,7 @@ m = {
            'baseline_off_cmd': 'cd /repo && cmake -G Ninja -B _build >/dev/null && (cmake --build _build -- -k 0 >/dev/null; ctest --test-dir _build -j8 --timeout 900)',
            'source_commits': [], 'add_only': True},
  'engines': [
-  {'name': 'E1 cbmc-src', 'path': 'e1/', 'serves_properties': ['C05', 'C06', 'C07', 'C08', 'C09', 'C11', 'C14', 'C18', 'C19'], 'kind_free_text': 'CBMC on the real .c files with contract stubs for the environment'},
+  {'name': 'E1 cbmc-src', 'path': 'e1/', 'serves_properties': ['C05', 'C06', 'C07', 'C08', 'C09', 'C11', 'C14', 'C17', 'C18', 'C19'], 'kind_free_text': 'CBMC on the real .c files with contract stubs for the environment'},
   {'name': 'E2 fvm', 'path': 'e2/', 'serves_properties': ['C01', 'C02', 'C03', 'C04', 'C05', 'C06', 'C07', 'C09', 'C10', 'C11', 'C12', 'C13', 'C14', 'C15', 'C16', 'C17', 'C18', 'C20'], 'kind_free_text': 'clang -O1 IR of the real units -> ir2cell -> C over integer cell memory -> CBMC threads (--mm sc / tso)'},
   {'name': 'E3 x86sym', 'path': 'e3/', 'serves_properties': ['C19'], 'kind_free_text': 'z3 symbolic interpreter for the inline assembly of fiber_context_swap extracted from the IR'},
  ],
